@@ -133,12 +133,14 @@ def _one(entry, budget, workers, tier):
         shutil.rmtree(base, ignore_errors=True)
 
 
-def _seeded(budget, workers, tier):
+def _seeded(budget, workers, tier, names=None):
     out = []
     sd = os.path.join(ROOT, "seeded")
     if not os.path.isdir(sd):
         return out
     for name in sorted(os.listdir(sd)):
+        if names and name not in names:
+            continue
         d = os.path.join(sd, name)
         patch = os.path.join(d, "patch.diff")
         meta = os.path.join(d, "meta.json")
@@ -176,7 +178,8 @@ def main(a):
             if r["status"] not in ("killed",) and r.get("tail"):
                 print("    " + r["tail"].replace("\n", "\n    ")[-600:])
     if a.seeded or (only and any(o.startswith("seeded") for o in only)):
-        for r in _seeded(a.budget, 16, a.tier):
+        names = set(o.split("/", 1)[1] for o in (only or []) if o.startswith("seeded/")) or None
+        for r in _seeded(a.budget, 16, a.tier, names):
             results.append(r)
             print("%-48s %-4s %-14s %6ss %s" % (r["id"], r["property"], r["status"], r.get("wall_s", "-"), ",".join(r.get("class", []))), flush=True)
     by = {}
